@@ -13,7 +13,8 @@ THEOREMS = ['MindsVerif.Props.C06.' + n for n in (
     'C06_regress_7', 'C06_regress_9',
     'phi6_compatible', 'phi6_ids', 'phi6_flip', 'phi6_join_spellings', 'phi6_join_probe',
     'C06_setops', 'C06_setops_unsupported', 'C06_setops_query', 'C06_setops_left_chain', 'C06_witness_except_assoc',
-    'C06_witness_10', 'C06_witness_flat_prec', 'C06_setops_accepted', 'C06_setops_accepts', 'C06_witness_rejected', 'C06_from_fresh', 'C06_witness_9', 'C06_witness_9b', 'C06_witness_9c')]
+    'C06_witness_10', 'C06_witness_flat_prec', 'C06_setops_accepted', 'C06_setops_accepts', 'C06_witness_rejected', 'C06_from_fresh', 'C06_witness_9', 'C06_witness_9b', 'C06_witness_9c',
+    'C06_history_restoring', 'C06_history', 'C06_history_guarded', 'C06_witness_12')]
 ASSUME = [
     'Render.saNorm / saRender / saStmt / saSpec / SaParen.saParens are hand models of SqlalchemyRender.get_string (+ the SQLAlchemy '
     'compiler) on the typed fragment; tie = the correspondence streams of this run (render-expr, render-optree, render-join, '
@@ -41,6 +42,12 @@ ASSUME = [
     'pinned on the real renderer by stream render-from-scope (object identity of repeated to_table calls; FROM lists of every nesting '
     'level of the rendered text, re-read with the library\'s parser).  What a dropped FROM entry does to the rows (correlation) is not '
     'in a theorem: execution probe',
+    'RenderHistory.actual says that SqlalchemyRender keeps nothing between calls (its answer is a function of the current statement: '
+    'C06_history); tie = stream render-history: ONE renderer object per dialect answers sessions of statements that include statements '
+    'whose rendering fails part-way (unsupported constructs inside derived tables / sub-queries / CTEs / set-operation operands / DML, '
+    'through the silent fail-back and through with_failback=False); after every call its instance attributes are compared with those '
+    'before (hypothesis Restoring of C06_history_restoring) and every answer with the answer of a new object (its conclusion); a '
+    'differing answer is executed against the original (row order compared under a top-level ORDER BY)',
     'okE (driver flag mod) only delimits where the printed text of the model is compared with SQLAlchemy\'s: NOT directly over a unary '
     'minus of a Boolean-typed operand prints an extra pair of parentheses',
 ]
@@ -827,6 +834,58 @@ def norm_levels(levels):
     return [[(e[0], [tuple(m) for m in e[1]]) if e[0] == 'j' else tuple(e) for e in lv] for lv in levels]
 
 
+# ------------------------------------------------------------------------------------ round 6: the renderer as an object with a history
+def obj_state(R):
+    """what a renderer object keeps between calls: its instance attributes, by value (containers by content)"""
+    import hashlib
+    out = {}
+    for k, v in sorted(vars(R).items()):
+        if k == 'dialect':
+            out[k] = '%s/%s' % (type(v).__name__, getattr(v, 'name', ''))
+        elif isinstance(v, (int, float, str, bool, type(None))):
+            out[k] = repr(v)
+        elif isinstance(v, dict):
+            out[k] = 'dict[%d]:%s' % (len(v), hashlib.md5(repr(sorted((str(a), str(b)) for a, b in v.items())).encode()).hexdigest()[:10])
+        elif isinstance(v, (list, tuple, set, frozenset)):
+            out[k] = '%s[%d]:%s' % (type(v).__name__, len(v), hashlib.md5(repr(sorted(map(str, v))).encode()).hexdigest()[:10])
+        else:
+            out[k] = type(v).__name__
+    return out
+
+
+def state_diff(a, b):
+    return {k: (a.get(k), b.get(k)) for k in sorted(set(a) | set(b)) if a.get(k) != b.get(k)}
+
+
+def answer(R, ast, failback):
+    """what a caller of get_string gets: ('text', normalised text) or ('raise', class: message)"""
+    try:
+        with warnings.catch_warnings():
+            warnings.simplefilter('ignore')
+            return ('text', norm_ws(R.get_string(ast) if failback else R.get_string(ast, with_failback=False)))
+    except Exception as e:
+        return ('raise', type(e).__name__ + ': ' + str(e)[:100])
+
+
+def apply_history(R, history):
+    """let the object answer the statements of `history` ([dict(text, failback)]); outcomes are ignored as a caller would"""
+    for h in history:
+        ast = parse(h['text'])
+        if ast is not None:
+            answer(R, ast, h['failback'])
+
+
+def shrink_history(d, history, ast, failback, got):
+    """a shortest history found that still makes a new object give the answer `got`: one earlier statement alone (latest
+    first), else the whole history"""
+    for h in reversed(history):
+        R = renderer(d)
+        apply_history(R, [h])
+        if answer(R, ast, failback) == got:
+            return [h]
+    return list(history)
+
+
 class Prober:
     """executes original vs rendered text over the databases and attributes a difference to known findings"""
 
@@ -835,13 +894,16 @@ class Prober:
         self.R = {d: renderer(d) for d in ('sqlite', 'mysql', 'postgres')}
         self.kf_by_sig = {k['signature']: k for k in chk.kf if k.get('status') == 'open' and 'signature' in k}
         self.stats = collections.Counter()
+        # the renderers above live through the whole probe (as a handler's does): what each has answered so far
+        self.log = {d: [] for d in self.R}
 
     def differs(self, case, orig, rend):
         """first difference over all databases, or None; 'skip' when the original never ran"""
         ran = 0
         for db in self.dbs:
             if case['kind'] == 'select':
-                d = X.compare_select(db, orig, rend, case.get('ordered', False), case.get('alias', ()), case.get('order_keys'))
+                d = X.compare_select(db, orig, rend, case.get('ordered', False), case.get('alias', ()), case.get('order_keys'),
+                                     case.get('order_cols'))
             else:
                 d = X.compare_dml(db.content, orig, rend)
             if isinstance(d, dict):
@@ -887,10 +949,12 @@ class Prober:
         orig = case.get('exec_text') or text
         for d in dialects:
             rend = render(self.R[d], ast)
+            self.log[d].append(dict(text=text, failback=False))
             fallback = False
             if not isinstance(rend, str):
                 # the renderer raised: get_string's default fallback returns the AST printer's text; it must mean the same
                 self.stats['render-raises'] += 1
+                self.log[d].append(dict(text=text, failback=True))
                 try:
                     rend = norm_ws(self.R[d].get_string(ast))
                     fallback = True
@@ -926,10 +990,24 @@ class Prober:
             if d != 'sqlite' and diff['kind'] == 'rendered-text-fails':
                 self.stats['not-common-subset:' + d] += 1    # sqlite cannot run this mysql/postgres text
                 continue
+            # is it this statement, or what the long-lived renderer answered before?  A new object is asked too
+            fresh = answer(renderer(d), ast, fallback)
+            fresh_text = fresh[1].replace('`', '"') if d != 'sqlite' and fresh[0] == 'text' else fresh[1]
+            if fresh != ('text', rend) and fresh_text != rend:
+                hist = shrink_history(d, self.log[d][:-2 if fallback else -1][-400:], ast, fallback,
+                                      answer(self.R[d], ast, fallback))
+                self.stats['NEW:history-dependent'] += 1
+                chk.fail(dict(desc='the answer of a renderer object depends on what it answered before (%s): %s' % (diff['kind'], text[:160]),
+                              kind='history', stmt_kind=case['kind'], dialect=d, history=hist, text=text, exec_text=case.get('exec_text'),
+                              failback=fallback, rendered=rend, rendered_fresh=fresh[1], ordered=case.get('ordered', False),
+                              alias=case.get('alias', []), order_keys=case.get('order_keys'), order_cols=case.get('order_cols'),
+                              diff={k: v for k, v in diff.items() if k != 'db'}, db=diff['db'], feats=case.get('feats', []), kf=None,
+                              **{'class': 'unexplained:history:' + diff['kind']}))
+                continue
             causes = self.attribute(case, orig, rend, ast, diff, d)
             f = dict(desc='rendered text differs in effect from the original (%s): %s' % (diff['kind'], text[:200]),
                      dialect=d, text=text, exec_text=case.get('exec_text'), rendered=rend, kind=case['kind'], ordered=case.get('ordered', False),
-                     alias=case.get('alias', []), order_keys=case.get('order_keys'), diff={k: v for k, v in diff.items() if k != 'db'}, db=diff['db'],
+                     alias=case.get('alias', []), order_keys=case.get('order_keys'), order_cols=case.get('order_cols'), diff={k: v for k, v in diff.items() if k != 'db'}, db=diff['db'],
                      causes=causes, feats=case.get('feats', []), from_ast=case.get('from_ast'),
                      **{'class': 'unexplained:' + diff['kind'] if not causes else 'kf:' + '+'.join(causes)})
             kfs = [self.kf_by_sig.get(c) for c in causes]
@@ -1522,6 +1600,76 @@ def run(chk):
         multi = not any('\\' in v for v in c.get('strs', ()))
         P.check({k: v for k, v in c.items() if k != 'ast'}, ast, DIALECTS if multi else ('sqlite',))
     timing['round5-scope-probe'] = round(time.time() - t_mark, 2)
+    # (b3) round 6: ONE renderer object per dialect answers whole sessions of statements, among them statements whose rendering
+    #      fails part-way (through the silent fail-back and through with_failback=False).  After every call: are its instance
+    #      attributes what they were before the call; is its answer the answer of a new object.  A differing answer to a
+    #      statement is executed against the original (row order under a top-level ORDER BY included).
+    t_mark = time.time()
+    hrng = common.rng_for(chk.seed, 'C06/history')
+    hg = X.Gen(hrng)
+    hd = collections.Counter()
+    div, first = 0, None
+    n_sess, n_len = (12, 60) if deep else ((6, 40) if broken else (3, 32))
+    for d in DIALECTS:
+        for sess in range(n_sess):
+            R1 = renderer(d)
+            history = []
+            reported = 0
+            for step in range(n_len):
+                r = hrng.random()
+                if r < 0.34:
+                    text, tag = hg.poison()
+                    c = dict(kind='poison', text=text, feats=['poison:' + tag])
+                elif r < 0.74:
+                    c = hg.ordered_select()
+                else:
+                    c = hg.statement()
+                ast = parse(c['text'])
+                if ast is None:
+                    hd['unparsed'] += 1
+                    continue
+                failback = hrng.random() < 0.6
+                before = obj_state(R1)
+                got = answer(R1, ast, failback)
+                after = obj_state(R1)
+                want = answer(renderer(d), ast, failback)
+                chk.count(('H', d, sess, step, c['text']))
+                hd['poison' if c['kind'] == 'poison' else 'ordered' if c.get('ordered') else 'other'] += 1
+                if c['kind'] == 'poison':
+                    hd['poison@' + c['feats'][0].split('@')[1]] += 1
+                    hd['poison-raises' if answer(renderer(d), ast, False)[0] == 'raise' else 'poison-RENDERS'] += 1
+                here = dict(text=c['text'], failback=failback)
+                changed = state_diff(before, after)
+                if changed:
+                    div += 1
+                    hd['STATE-CHANGED'] += 1
+                    first = first or dict(what='instance attributes of the renderer differ after a call', dialect=d, statement=c['text'],
+                                          with_failback=failback, outcome=got, attributes={k: dict(before=v[0], after=v[1]) for k, v in changed.items()},
+                                          model='no attribute is assigned after __init__ (RenderHistory.actual; Restoring)')
+                if got != want:
+                    div += 1
+                    hd['ANSWER-DEPENDS-ON-HISTORY'] += 1
+                    hist = shrink_history(d, history, ast, failback, got) if reported < 4 else list(history)
+                    first = first or dict(what='the answer differs from the answer of a new renderer object', dialect=d, statement=c['text'],
+                                          with_failback=failback, after=[h['text'] for h in hist][-3:], answer=got, new_object=want)
+                    if reported < 4 and c['kind'] != 'poison' and got[0] == 'text':
+                        reported += 1
+                        rend = got[1].replace('`', '"') if d != 'sqlite' else got[1]
+                        ex = c.get('exec_text') or c['text']
+                        diff = P.differs(c, ex, rend)
+                        if isinstance(diff, dict) and not (d != 'sqlite' and diff['kind'] == 'rendered-text-fails'):
+                            hd['DIFFERS-IN-EFFECT:' + diff['kind']] += 1
+                            chk.fail(dict(desc='the answer of a renderer object depends on what it answered before (%s): %s' % (diff['kind'], c['text'][:160]),
+                                          kind='history', stmt_kind=c['kind'], dialect=d, history=hist, text=c['text'], exec_text=c.get('exec_text'),
+                                          failback=failback, rendered=rend, rendered_fresh=want[1], ordered=c.get('ordered', False),
+                                          alias=c.get('alias', []), order_keys=c.get('order_keys'), order_cols=c.get('order_cols'),
+                                          state_changed_by_last_call=changed, diff={k: v for k, v in diff.items() if k != 'db'}, db=diff['db'],
+                                          feats=c.get('feats', []), kf=None, **{'class': 'unexplained:history:' + diff['kind']}))
+                else:
+                    hd['same-as-new-object'] += 1
+                history.append(here)
+    chk.corr_result('render-history', sum(v for k, v in hd.items() if k in ('poison', 'ordered', 'other')), div, first, dict(hd))
+    timing['round6-history'] = round(time.time() - t_mark, 2)
     # (c) generated statements
     for i in range(n_stmt):
         c = g.statement()
@@ -1592,6 +1740,8 @@ def replay(path):
         return 1 if a != b else 0
     if f.get('kind') == 'setop-tree':
         return replay_setop(f)
+    if f.get('kind') == 'history':
+        return replay_history(f)
     if f.get('from_ast'):
         ast = join_ast(f['from_ast']['join_type'], f['from_ast']['on'])
     else:
@@ -1606,12 +1756,38 @@ def replay(path):
     case = dict(kind=f['kind'], ordered=f.get('ordered', False), alias=[tuple(a) for a in f.get('alias', [])])
     ex = f.get('exec_text') or f['text']
     if f['kind'] == 'select':
-        d = X.compare_select(db, ex, rend, case['ordered'], case['alias'], f.get('order_keys'))
+        d = X.compare_select(db, ex, rend, case['ordered'], case['alias'], f.get('order_keys'), f.get('order_cols'))
     else:
         d = X.compare_dml(content, ex, rend)
     bad = isinstance(d, dict)
     print('REPRODUCED' if bad else 'not reproduced', '\n original:', f['text'],
           ('\n (executed in sqlite as: %s)' % ex) if ex != f['text'] else '', '\n rendered:', rend, '\n db:', content, '\n', d)
+    return 1 if bad else 0
+
+
+def replay_history(f):
+    """a NEW renderer object answers the statements of `history` (outcomes ignored, as a caller with the fail-back would),
+    then the statement; its answer is compared with the answer of another new object and executed against the original"""
+    d = f['dialect']
+    R = renderer(d)
+    apply_history(R, f['history'])
+    ast = parse(f['text'])
+    got, want = answer(R, ast, f.get('failback', False)), answer(renderer(d), ast, f.get('failback', False))
+    content = {k: tuple(tuple(r) for r in v) for k, v in f['db'].items()}
+    diff = None
+    if got[0] == 'text':
+        rend = got[1].replace('`', '"') if d != 'sqlite' else got[1]
+        ex = f.get('exec_text') or f['text']
+        if f.get('stmt_kind', 'select') == 'select':
+            diff = X.compare_select(X.Db(content), ex, rend, f.get('ordered', False), [tuple(a) for a in f.get('alias', [])],
+                                    f.get('order_keys'), f.get('order_cols'))
+        else:
+            diff = X.compare_dml(content, ex, rend)
+    bad = got != want and isinstance(diff, dict)
+    print('REPRODUCED' if bad else 'not reproduced', '\n dialect:', d, '\n a new renderer object first answered:')
+    for h in f['history']:
+        print('    [%s] %s' % ('get_string(q)' if h['failback'] else 'get_string(q, with_failback=False)', h['text']))
+    print(' then the statement:', f['text'], '\n its answer:       ', got[1], '\n a new object answers:', want[1], '\n db:', content, '\n', diff)
     return 1 if bad else 0
 
 
